@@ -302,3 +302,13 @@ func init() {
 		ruleSchemaReadSet(c, r)
 	})
 }
+
+func init() {
+	register("C26", func(c *Ctx, r *Report) {
+		r.Decides("the complete package gogen's templates expand to (both union styles) type-checks against the real ygot/ytypes/goyang and its types implement the ygot interfaces; the golden generated files and the compiled generated packages type-check; writeGoStruct emits one field per IR field with the Go type of its node kind, names come from the uniquifiers, the ordered/unordered decisions agree, and the fake root receives every root directory, leaf and leaf-list.",
+			"random schemas and flag combinations (only the template/IR structure is decided, plus the fixed golden corpus); go vet beyond type-checking; that field tags resolve in the embedded schema for every schema.")
+		ruleCompileTemplates(c, r)
+		ruleCompileCorpus(c, r)
+		ruleFieldKinds(c, r)
+	})
+}
